@@ -550,3 +550,94 @@ func (w *WaitGroup) Wait() {
 	}
 	w.real.Wait()
 }
+
+// ---------------------------------------------------------------- channels
+// Chan replaces `chan T` in instrumented library code (make, send, receive,
+// close and range are rewritten; select is not supported). While a run is
+// active it is a queue whose blocking operations yield to other tasks; its
+// mutex is a real one, taken around every queue access, so that the race
+// detector sees a happens-before edge from each send to the receives after it
+// (an over-approximation that can hide a race, never invent one).
+type Chan[T any] struct {
+	real   chan T
+	mu     sync.Mutex
+	buf    []T
+	capa   int
+	closed bool
+	sent   uint64
+	taken  uint64
+}
+
+func MakeChan[T any](n int) *Chan[T] { return &Chan[T]{real: make(chan T, n), capa: n} }
+
+func (c *Chan[T]) Send(v T) {
+	if !isActive() {
+		c.real <- v
+		return
+	}
+	for {
+		c.mu.Lock()
+		if c.closed {
+			c.mu.Unlock()
+			panic("send on closed channel")
+		}
+		if len(c.buf) < c.capa || (c.capa == 0 && len(c.buf) == 0) {
+			c.buf = append(c.buf, v)
+			c.sent++
+			my := c.sent
+			c.mu.Unlock()
+			for c.capa == 0 { // unbuffered: wait until a receiver took it
+				c.mu.Lock()
+				done := c.taken >= my
+				c.mu.Unlock()
+				if done {
+					break
+				}
+				spinYield()
+			}
+			return
+		}
+		c.mu.Unlock()
+		spinYield()
+	}
+}
+
+func (c *Chan[T]) Recv2() (T, bool) {
+	if !isActive() {
+		v, ok := <-c.real
+		return v, ok
+	}
+	for {
+		c.mu.Lock()
+		if len(c.buf) > 0 {
+			v := c.buf[0]
+			c.buf = c.buf[1:]
+			c.taken++
+			c.mu.Unlock()
+			return v, true
+		}
+		if c.closed {
+			c.mu.Unlock()
+			var zero T
+			return zero, false
+		}
+		c.mu.Unlock()
+		spinYield()
+	}
+}
+
+func (c *Chan[T]) Recv() T { v, _ := c.Recv2(); return v }
+
+func (c *Chan[T]) Close() {
+	if !isActive() {
+		close(c.real)
+		return
+	}
+	c.mu.Lock()
+	if c.closed {
+		c.mu.Unlock()
+		panic("close of closed channel")
+	}
+	c.closed = true
+	c.mu.Unlock()
+}
